@@ -876,6 +876,16 @@ def copy_aliasing(repo: Repo, R, rule: str):
             ok = bool(ctor)
             if not ok:
                 detail += " but __copy__ does not construct a new instance"
+            else:
+                init = bi.methods.get("__init__")
+                fields = [a.arg for a in init.node.args.kwonlyargs] if init else []
+                kws = {k.arg: ast.unparse(k.value) for k in ctor[0][0].keywords}
+                wrong = [f for f in fields if kws.get(f) != f"self.{f}"]
+                if wrong:
+                    ok = False
+                    detail += f"; __copy__ does not carry over field(s) {wrong} unchanged"
+                else:
+                    detail += f"; __copy__ re-constructs with every field ({', '.join(fields)}) carried over"
         R.check(ok, rule, key_of(fi, ast.unparse(c)), fi.at(c), detail,
                 why="`b2 = flipped(b1)` / `b1, b2 = 2 * B()`: both objects share refs_to_me and _connected_ports, so instances wired to b1 are rewired to b2's signals")
 
